@@ -38,6 +38,13 @@ def corpus():
     cs.append(mk(es, ns, [10], (0, 4, 0, 2), (2, 2), 1.0, "spacing", "malformed"))
     cs.append(mk(es, ns, [10], (0, 4, 0, 2), None, None, "spacing", "malformed"))
     cs.append(mk(es, ns, [10], (4, 0, 0, 2), None, 1.0, "spacing", "malformed"))
+    # points strictly inside a block but only extent * 2^-31 away from its east / north edge (their two nearest centres differ in distance by
+    # far more than round-off: decided, not ambiguous), next to points as close on the other side of the same edges
+    d_ = 2.0 ** -28
+    ne_ = [j - d_ for j in range(1, 8)] + [j + d_ for j in range(1, 8)] + [0.5, 7.5, 3.5, 3.5]
+    nn_ = [0.5 + (j % 4) for j in range(1, 8)] + [0.5 + ((j + 1) % 4) for j in range(1, 8)] + [1.0 - d_ / 2, 3.0 + d_ / 2, 2.0 - d_ / 2, 2.0 + d_ / 2]
+    cs.append(mk(ne_, nn_, [len(ne_)], (0, 8, 0, 4), (4, 8), None, "spacing", "corpus-hairline-inside"))
+    cs.append(mk([x * 125.0 for x in ne_], [y * 250.0 for y in nn_], [len(ne_)], (0, 1000, 0, 1000), None, (250.0, 125.0), "spacing", "corpus-hairline-inside"))
     return cs
 
 
